@@ -18,13 +18,15 @@ sys.path.insert(0, os.path.join(os.path.dirname(os.path.dirname(os.path.abspath(
 import vlib            # noqa: E402
 import driver_trace as dt   # noqa: E402
 
-# an error line of comsg.c: "[L1 C6] #1 (Error) ..." or "#1 (Fatal Error) ..." at the start of a line (source text
-# echoed in a message follows the `"file", line n: ' prefix or is indented, so it cannot fake one)
-ERR_LINE = re.compile(rb"^(?:\[L\d+ C\d+\] )?#\d+ \((?:Fatal )?Error\)", re.M)
-FAULTS = [("program-fault", re.compile(rb"^(?:\[L\d+ C\d+\] )?#\d+ \((?:Fatal )?Error\) Program fault", re.M)),
-          ("unexpected-signal", re.compile(rb"^(?:\[L\d+ C\d+\] )?#\d+ \((?:Fatal )?Error\) Unexpected signal", re.M)),
-          ("bug", re.compile(rb"^Bug: |^Compiler bug\.\.\.", re.M)),
+# Source text echoed in a message stands on lines of the form `"file", line n: <text>'; they are removed before the
+# output is searched, so that the text of the input cannot fake an error line or a fault report.
+ECHO_LINE = re.compile(rb'^"[^"\n]*", line \d+: .*$', re.M)
+ERR_LINE = re.compile(rb"#\d+ \((?:Fatal )?Error\) ")
+FAULTS = [("program-fault", re.compile(rb"#\d+ \((?:Fatal )?Error\) Program fault")),
+          ("unexpected-signal", re.compile(rb"#\d+ \((?:Fatal )?Error\) Unexpected signal")),
+          ("bug", re.compile(rb"^Bug: |Compiler bug\.\.\.", re.M)),
           ("assert", re.compile(rb"Assertion failed, file ")),
+          ("out-of-memory", re.compile(rb"#\d+ \((?:Fatal )?Error\) Storage allocation error")),
           ("sanitizer", re.compile(rb"ERROR: AddressSanitizer|runtime error: |ERROR: LeakSanitizer"))]
 TIMEOUT_RC = 124
 
@@ -48,14 +50,17 @@ def private_compiler(build, d):
 
 class Input(object):
     """One source text and what TLC said about it."""
-    __slots__ = ("cls", "name", "data", "cert", "asread", "args", "files", "label", "kinds")
+    __slots__ = ("cls", "name", "data", "cert", "asread", "feat", "args", "files", "label", "kinds", "timeout")
 
-    def __init__(self, cls, name, data, cert=(), asread=None, args=(), files=None, label=None, kinds=("ao",)):
+    def __init__(self, cls, name, data, cert=(), asread=None, feat=(), args=(), files=None, label=None, kinds=("ao",),
+                 timeout=None):
         self.cls = cls                # input class: "enum", "mutant", "stress", "dirs", "random", ...
         self.name = name              # identifies the text within its class (json-able)
         self.data = data              # bytes
         self.cert = list(cert)        # certificates of invalidity (TLC)
         self.asread = list(cert) if asread is None else list(asread)
+        self.feat = list(feat)        # implementation-shaped features of the text (TLC), used in finding keys only
+        self.timeout = timeout        # the time bound of this input in seconds (None: the default of the batch)
         self.args = list(args)        # extra command-line options (valid ones; only the text varies)
         self.files = files or {}      # {relative name: bytes} further files the text refers to
         self.label = label or {}
@@ -102,8 +107,8 @@ def run_inputs(build, inputs, jobs=None, timeout=20, hooks=True, env_extra=None,
                 cmd = " ".join("'%s'" % a for a in args)
                 pre = "cd w%d && " % i if inp.files else ""
                 envs = ("ALDOR_VERIF_TRACE='%s/r%d.nd' " % (d, i)) if hooks else ""
-                fh.write("(%s%stimeout -k 2 %d %s > '%s/r%d.out' 2>&1 < /dev/null); echo %d $? >> job%d.rc\n"
-                         % (pre, envs, timeout, cmd, d, i, i, j))
+                fh.write("(%s%stimeout -k 2 %s %s > '%s/r%d.out' 2>&1 < /dev/null); echo %d $? >> job%d.rc\n"
+                         % (pre, envs, inp.timeout or timeout, cmd, d, i, i, j))
         e = dict(os.environ)
         e.pop("ALDOR_VERIF_TRACE", None)
         if env_extra:
@@ -133,8 +138,9 @@ def run_inputs(build, inputs, jobs=None, timeout=20, hooks=True, env_extra=None,
         r.timeout = r.rc == TIMEOUT_RC or r.rc == 137
         if r.rc > 128 and not r.timeout:
             r.signal = r.rc - 128
-        r.errl = len(ERR_LINE.findall(out))
-        fault = fault_of(r.rc, out)
+        plain = ECHO_LINE.sub(b"", out)
+        r.errl = len(ERR_LINE.findall(plain))
+        fault = fault_of(r.rc, plain)
         if r.signal and not fault:
             fault = "signal"
         raw = []
@@ -177,23 +183,107 @@ def run_inputs(build, inputs, jobs=None, timeout=20, hooks=True, env_extra=None,
     return runs
 
 
-def validate(runs, chunk=400, parallel=8, timeout=600):
-    """TLC (spec/TraceTotal.tla) judges every run; returns (verdicts, stats) like driver_trace.validate."""
-    return dt.validate(runs, chunk=chunk, parallel=parallel, timeout=timeout, module="TraceTotal", cfg="TraceTotal")
+def validate_chunk(runs, workdir, tag, stats, timeout=600):
+    """One TLC process (spec/TraceTotal.tla, -continue) judges `runs`; returns a dt.Verdict per run.
+    STUCK i   no action of the module matches event i (fault, hang, signal, not a behaviour of Driver)
+    JUDGED i  the invariants of Driver / InvalidDiagnosed that fail in the state reached by the Observed event i
+    a violated invariant of the configuration (any other state) is read off TLC's error block as in driver_trace."""
+    path = os.path.join(workdir, "trace-%s.ndjson" % tag)
+    evs, starts = [], []
+    for r in runs:
+        starts.append(len(evs) + 1)
+        evs.extend(r.events)
+    evs.append({"ev": "End"})
+    vlib.write_ndjson(path, evs)
+    env = {"TRACE": path, "JAVA_TOOL_OPTIONS": "-XX:TieredStopAtLevel=1 -XX:ParallelGCThreads=2"} if len(evs) < 3000 else {"TRACE": path}
+    for attempt in (0, 1):
+        res = vlib.tlc("TraceTotal", "TraceTotal", workers=1, env=env, timeout=timeout * (1 + 3 * attempt),
+                       xss="64m", xmx="2g", extra=("-continue",))
+        if re.search(r'<<"END", %d>>' % len(evs), res.out):
+            break
+    os.unlink(path)
+    with dt._lock:
+        stats["tlc_runs"] += 1
+        stats["states"] += res.distinct
+        stats["generated"] += res.states
+        stats["wall"] += res.wall
+    out = res.out
+    if not re.search(r'<<"END", %d>>' % len(evs), out):
+        raise vlib.MachineryError("TLC did not reach the end of the trace file (%s):\n%s" % (tag, vlib._first_error(out)))
+    verdicts = [dt.Verdict(True) for _ in runs]
+    import bisect
+
+    def which(idx):
+        return bisect.bisect_right(starts, idx) - 1
+    for m in re.finditer(r'<<"STUCK", (\d+)>>', out):
+        idx = int(m.group(1))
+        j = which(idx)
+        if verdicts[j].ok:
+            verdicts[j] = dt.Verdict(False, "stuck", "NotABehaviour", idx - starts[j], evs[idx - 1], evs[idx - 2] if idx >= 2 else None,
+                                     "no action of TraceTotal matches event %d of the run: %s\nafter: %s" %
+                                     (idx - starts[j], json.dumps(evs[idx - 1]), json.dumps(evs[idx - 2] if idx >= 2 else None)))
+    for m in re.finditer(r'<<"JUDGED", (\d+), \{([^}]*)\}>>', out):
+        idx = int(m.group(1))
+        names = sorted(x.strip().strip('"') for x in m.group(2).split(","))
+        j = which(idx)
+        if verdicts[j].ok:
+            verdicts[j] = dt.Verdict(False, "invariant", "+".join(names), idx - starts[j], evs[idx - 1], evs[idx - 2],
+                                     "%s violated in the state reached by the Observed event of the run: %s" %
+                                     (", ".join(names), json.dumps(evs[idx - 1])))
+    blocks = re.split(r"Error: Invariant (\S+) is violated\.", out)
+    for bi in range(1, len(blocks), 2):
+        name, body = blocks[bi], blocks[bi + 1]
+        ls = re.findall(r"^/\\ l = (\d+)", body, re.M)
+        if not ls:
+            raise vlib.MachineryError("TLC reported %s without a trace:\n%s" % (name, body[:2000]))
+        idx = int(ls[-1]) - 1
+        j = which(idx)
+        if verdicts[j].ok:
+            verdicts[j] = dt.Verdict(False, "invariant", name, idx - starts[j], evs[idx - 1], evs[idx - 2] if idx >= 2 else None,
+                                     "Invariant %s is violated in the state reached by event %d of the run: %s" %
+                                     (name, idx - starts[j], json.dumps(evs[idx - 1])))
+    other = [e for e in re.findall(r"^Error: (.*)$", out, re.M)
+             if not e.startswith("Invariant ") and not e.startswith("The behavior up to this point")]
+    if other:
+        raise vlib.MachineryError("TLC trace validation failed (%s): %s" % (tag, vlib._first_error(out)))
+    return verdicts
 
 
-def backtrace(build, inp, timeout=60):
-    """Top frames of the crash site under gdb (for the key of a finding); [] when gdb shows nothing."""
+def validate(runs, chunk=1500, parallel=8, timeout=600):
+    """TLC (spec/TraceTotal.tla) judges every run; returns (verdicts, stats)."""
+    from concurrent.futures import ThreadPoolExecutor
+    workdir = vlib.scratch("trv7")
+    stats = {"tlc_runs": 0, "states": 0, "generated": 0, "wall": 0.0}
+    chunks = [runs[i:i + chunk] for i in range(0, len(runs), chunk)]
+    with ThreadPoolExecutor(max_workers=parallel) as ex:
+        futs = [ex.submit(validate_chunk, c, workdir, str(i), stats, timeout) for i, c in enumerate(chunks)]
+        res = [f.result() for f in futs]
+    shutil.rmtree(workdir, ignore_errors=True)
+    return [v for vs in res for v in vs], stats
+
+
+SKIP_FRAMES = ("raise", "abort", "__pthread_kill_implementation", "__pthread_kill_internal", "__GI_raise", "__GI_abort",
+               "pthread_kill", "__assert_fail", "_do_assert", "bug", "bugBadCase", "__GI___pthread_kill", "osExit", "exit")
+
+
+def crash_site(build, inp, timeout=60, hang_after=None):
+    """Where the compiler faults on this input: "file.c:function" of the innermost frame of the compiler's own code
+    under gdb (signals stopped before the compiler's handler sees them).  With hang_after=s the process is
+    interrupted after s seconds and the outermost frame below the driver (axlcomp.c), i.e. the entry point of
+    the phase that loops, is taken.  "" when gdb shows nothing.  Used only for the key of a finding."""
     d = vlib.scratch("c07bt")
     for fn, data in inp.files.items():
         with open(os.path.join(d, fn), "wb") as fh:
             fh.write(data)
     with open(os.path.join(d, "t.as"), "wb") as fh:
         fh.write(inp.data)
-    cmd = ["gdb", "-q", "-batch", "-ex", "handle SIGSEGV stop nopass", "-ex", "handle SIGABRT stop nopass",
-           "-ex", "handle SIGFPE stop nopass", "-ex", "handle SIGBUS stop nopass", "-ex", "handle SIGILL stop nopass",
-           "-ex", "run", "-ex", "bt 12", "--args", build["aldor"]] + vlib.ALDOR_BASE_ARGS + \
-          ["-F" + k for k in inp.kinds] + inp.args + ["t.as"]
+    cmd = ["gdb", "-q", "-batch"]
+    for sig in ("SIGSEGV", "SIGABRT", "SIGFPE", "SIGBUS", "SIGILL"):
+        cmd += ["-ex", "handle %s stop nopass" % sig]
+    cmd += ["-ex", "run", "-ex", "bt 40", "--args", build["aldor"]] + vlib.ALDOR_BASE_ARGS + \
+           ["-F" + k for k in inp.kinds] + inp.args + ["t.as"]
+    if hang_after:
+        cmd = ["timeout", "-s", "INT", str(hang_after)] + cmd
     try:
         p = subprocess.run(cmd, cwd=d, stdout=subprocess.PIPE, stderr=subprocess.STDOUT, timeout=timeout,
                            stdin=subprocess.DEVNULL)
@@ -202,10 +292,13 @@ def backtrace(build, inp, timeout=60):
         out = (e.stdout or b"").decode(errors="replace")
     shutil.rmtree(d, ignore_errors=True)
     frames = []
-    for m in re.finditer(r"^#\d+\s+(?:0x[0-9a-f]+ in )?([A-Za-z_][A-Za-z0-9_]*) \(", out, re.M):
-        f = m.group(1)
-        if f in ("raise", "abort", "__pthread_kill_implementation", "__pthread_kill_internal", "__GI_raise", "__GI_abort",
-                 "pthread_kill", "__assert_fail", "_do_assert", "bug", "bugBadCase", "__GI___pthread_kill"):
+    for m in re.finditer(r"^#\d+\s+(?:0x[0-9a-f]+ in )?([A-Za-z_][A-Za-z0-9_]*) \(.*?\)(?: at ([A-Za-z0-9_./-]+):\d+)?\s*$", out, re.M):
+        f, src = m.group(1), os.path.basename(m.group(2) or "")
+        if f in SKIP_FRAMES or not src.endswith(".c"):
             continue
-        frames.append(f)
-    return frames[:4]
+        frames.append("%s:%s" % (src, f))
+    if hang_after:
+        # a sample of a loop: the innermost frame varies from sample to sample, the entry point of the phase does not
+        inner = [f for f in frames if f.split(":")[0] not in ("axlcomp.c", "main.c")]
+        return inner[-1] if inner else ""
+    return frames[0] if frames else ""
